@@ -145,6 +145,7 @@ func newSolver(t *world.TaskSpec, pb *solver.Problem, cpMode, amo bool) *solver.
 	}
 	s := solver.New(pb)
 	s.CuttingPlanes = cpMode
+	s.Verbose = t.Verbose // the statistics reporter: a goroutine with a ticker, a select and a rendez-vous at the end
 	return s
 }
 
